@@ -610,6 +610,8 @@ func (x *runner) runC04() {
 		nAny = 400
 	}
 	x.runAnyK(types, nAny)
+	// query strings, well-formed and damaged, through the query-parameters reader against the model
+	x.runQueryDecK(nAny / 4)
 	// untyped Go values of arbitrary shape
 	anyVals := []any{nil, 1, int64(2), 3.5, "s", []byte("b"), true, []any{}, []any{1, "a", nil}, map[string]any{}, map[string]any{"id": "x"},
 		map[string]any{"id": nil}, map[int]any{1: 2}, []int{1}, (*int)(nil), new(int), struct{}{}, map[string]any{"inner": []any{1}}, map[string]any{"u": map[string]any{"int": map[string]any{}}}}
